@@ -1,50 +1,83 @@
 // Kani harnesses attached to h3/src/qpack/prefix_string/mod.rs — C15 (string literal = length prefix + payload), C06.
 //
-// Only the part of `decode` in front of `buf.copy_to_bytes(len)` is within Kani's reach (everything behind it
-// holds a `Bytes` and collects into a growing `Vec`, see DESIGN §2): the length prefix and the
-// `remaining() < len` check.  The harness therefore covers exactly the inputs that must be refused for being
-// too short - a content-free question - and says nothing about accepted strings (those are the business of
-// the per-symbol harnesses in decode.rs + the string-level lemma).
+// What Kani can decide about `decode` is content-free: the length prefix, the `remaining() < len` check and how
+// many octets are taken from the buffer.  With a real payload everything behind `buf.copy_to_bytes(len)` holds
+// a `Bytes` and collects into a growing `Vec` (does not finish: a 12-byte `&[u8]` wire restricted to the
+// too-short inputs was stopped after 10 min), so the harness uses a `Buf` whose payload is never materialised.
+// What the payload decodes to is the business of the per-symbol harnesses in decode.rs + the string-level lemma.
 use super::*;
 #[path = "/verif/kani/_spec.rs"]
 mod spec;
 use spec::*;
 
-// vp: props=C15,C06; tag=C15.string.short; kind=complete; tier=quick
-// for every prefix size used with strings (size - 1 in 1..=8) and every wire of up to 12 octets whose length
-// prefix is truncated, unrepresentable, or announces more octets than follow: the documented error, no panic,
-// and nothing is read past the prefix.  (12 octets: the longest prefix integer; the announced length is any u64.)
+/// Content-free wire: the first 12 octets (enough for any length prefix) are symbolic, whatever follows is
+/// never looked at - `copy_to_bytes` only accounts for the octets it is asked for and hands back an empty
+/// `Bytes`.  `total` (the number of octets on the wire) is any usize.
+struct Wire {
+    head: [u8; 12],
+    pos: usize,
+    total: usize,
+    copied: Option<usize>,
+}
+impl Buf for Wire {
+    fn remaining(&self) -> usize {
+        self.total - self.pos
+    }
+    fn chunk(&self) -> &[u8] {
+        let end = if self.total < 12 { self.total } else { 12 };
+        if self.pos < end {
+            &self.head[self.pos..end]
+        } else {
+            &[]
+        }
+    }
+    fn advance(&mut self, cnt: usize) {
+        assert!(cnt <= self.total - self.pos);
+        self.pos += cnt;
+    }
+    fn copy_to_bytes(&mut self, len: usize) -> bytes::Bytes {
+        assert!(len <= self.total - self.pos, "copy_to_bytes beyond the end of the buffer");
+        assert!(self.copied.is_none());
+        self.pos += len;
+        self.copied = Some(len);
+        bytes::Bytes::new()
+    }
+}
+
+// vp: props=C15,C06; tag=C15.string.length; kind=complete; tier=quick
+// `decode(size, buf)` for every prefix size used with strings (size - 1 in 1..=8), every length prefix and every
+// wire length: the prefix is read by prefix_int::decode, a string that announces more octets than remain is
+// UnexpectedEnd with nothing but the prefix consumed, otherwise exactly `len` octets are taken (one
+// copy_to_bytes(len), never beyond the end: no panic in `Buf`).  The payload is content-free (see `Wire`).
 #[kani::proof]
 #[kani::unwind(13)]
-fn c15_string_decode_too_short() {
+fn c15_string_decode_length() {
     let size: u8 = kani::any();
     kani::assume(2 <= size && size <= 9);
-    let arr: [u8; 12] = kani::any();
-    let n: usize = kani::any();
-    kani::assume(n <= 12);
-    let want = spec_prefix_int_dec(size - 1, &arr[..n]);
-    // keep only the inputs that cannot be a whole string literal
-    let short = match want {
-        SpecPrefixInt::Value { value, used, .. } => value > (n - used) as u64,
-        _ => true,
-    };
-    kani::assume(short);
-    let mut r: &[u8] = &arr[..n];
-    let res = decode(size, &mut r);
+    let mut w = Wire { head: kani::any(), pos: 0, total: kani::any(), copied: None };
+    let n = if w.total < 12 { w.total } else { 12 };
+    let want = spec_prefix_int_dec(size - 1, &w.head[..n]);
+    let res = decode(size, &mut w);
     match want {
-        SpecPrefixInt::Value { used, .. } => {
+        SpecPrefixInt::Value { value, used, .. } => {
             if used <= 10 {
-                assert!(res == Err(Error::UnexpectedEnd), "C15.string.short: announced length exceeds the input");
-                assert!(n - r.len() == used);
+                if value <= (w.total - used) as u64 {
+                    assert!(res.is_ok(), "C15.string.length: complete literal accepted");
+                    assert!(w.copied == Some(value as usize) && w.pos == used + value as usize, "C15.string.length: exactly len octets taken");
+                } else {
+                    assert!(res == Err(Error::UnexpectedEnd), "C15.string.short: announced length exceeds the input");
+                    assert!(w.copied.is_none() && w.pos == used);
+                }
             } else {
-                // ten continuation octets: which error depends on c15_int_decode_top (Overflow today)
-                assert!(res.is_err(), "C15.string.short: announced length exceeds the input");
+                // ten continuation octets: decided by c15_int_decode_top (Overflow today)
+                assert!(w.copied.is_none() || w.copied == Some(value as usize));
             }
         }
-        SpecPrefixInt::Truncated => assert!(res.is_err(), "C15.string.short: truncated length prefix"),
-        SpecPrefixInt::TooBig => assert!(res == Err(Error::Integer(IntegerError::Overflow)), "C15.string.short: length overflow"),
+        // (nine continuation octets that all ask for more, then the end, are reported as Overflow today)
+        SpecPrefixInt::Truncated => assert!(res.is_err() && w.copied.is_none(), "C15.string.short: truncated length prefix"),
+        SpecPrefixInt::TooBig => assert!(res == Err(Error::Integer(IntegerError::Overflow)) && w.copied.is_none(), "C15.string.length: length overflow"),
     }
-    kani::cover!(matches!(want, SpecPrefixInt::Value { used: 1, .. }) && n == 3);
-    kani::cover!(matches!(want, SpecPrefixInt::Value { used: 10, .. }));
+    kani::cover!(res.is_ok() && w.total > 1000);
+    kani::cover!(res == Err(Error::UnexpectedEnd) && w.pos == 10);
     kani::cover!(matches!(want, SpecPrefixInt::TooBig));
 }
